@@ -81,6 +81,12 @@ pub fn run(args: &[String]) -> i32 {
         ("= 0 JPY", None),
         ("= -1,234.50 CHF", None),
         ("= 0", None),
+        // expressions: the numeric part ends after the first number that carries a commodity, counting parentheses and unary minus
+        ("(-10 USD * 2.1)", Some(4)),
+        ("(2 * -3.25 USD)", Some(10)),
+        ("(-(1 USD + 2 USD) * 3)", Some(4)),
+        ("(1,000.5 CHF + 2 CHF) @ 3 JPY", Some(8)),
+        ("= (-10 USD * 2)", None),
         // wide-character commodities: measured in display columns, not bytes or chars
         ("= 1,000 あ", None),
         ("= 5 あああ", None),
